@@ -13,7 +13,7 @@
 (***************************************************************************)
 EXTENDS PtrSpec, TLC
 
-Widths == {1, 2, 4, 8}
+Widths == {1, 2, 3, 4, 6, 8}
 TU8 == [k |-> "int", name |-> "uint8", size |-> 1, signed |-> FALSE, align |-> 1]
 TU16 == [k |-> "int", name |-> "uint16", size |-> 2, signed |-> FALSE, align |-> 2]
 Inner == [k |-> "struct", name |-> "in", fields |-> << [name |-> "x", type |-> TU8, bits |-> 0, anon |-> FALSE], [name |-> "y", type |-> TU16, bits |-> 0, anon |-> FALSE] >>]
